@@ -577,6 +577,7 @@ def run_ops(oplist, stream='?', result=None, batch=4000):
     """run real + model on the ops and compare"""
     result = result or Result()
     buf = []
+    again = []
 
     def flush():
         if not buf:
@@ -620,9 +621,21 @@ def run_ops(oplist, stream='?', result=None, batch=4000):
         if len(result.samples) < 3:
             result.samples.append(op)
         buf.append((op, real))
+        if len(again) < 60 and (result.evaluations <= 30 or result.evaluations % 37 == 0):
+            again.append((op, real))
         if len(buf) >= batch:
             flush()
     flush()
+    # history independence: an operation run again at the end of the stream, after thousands of other
+    # calls in the same process, returns what it returned the first time (no process-wide state)
+    for op, first in again:
+        try:
+            second = with_alarm(lambda: ops.run_real(op))
+            json.dumps(second)
+        except Exception as e:  # noqa: BLE001
+            second = {'uncanonicalisable_result': f'{type(e).__name__}: {e}'}
+        if second != first:
+            result.mismatches.append((op, first, {'second_run_differs': second}))
     return result
 
 
